@@ -186,7 +186,7 @@ def _inp(scores, lab, fdr, where):
 
 
 def check_calibrate(tier, seed):
-    n_mod, n_disk = (1000, 100) if tier == "quick" else (15000, 1000)
+    n_mod, n_disk = (800, 80) if tier == "quick" else (15000, 1000)
     ck = Check(
         "calibrate", "mokapot.dataset.calibrate_scores, mokapot.dataset.OnDiskPsmDataset.calibrate_scores",
         "random: %d score vectors for the module-level function and %d for the on-disk method (tiny Parquet/TSV "
@@ -344,7 +344,7 @@ def _judge_brew(cfg, df, outcome, folds):
 
 def _brew_configs(tier, seed):
     rng = np.random.default_rng(seed + 11)
-    n = 100 if tier == "quick" else 600
+    n = 60 if tier == "quick" else 600
     cfgs = []
     for k in range(n):
         folds = 2 + k % 3 if tier == "quick" else 2 + k % 5
